@@ -382,38 +382,74 @@ fn neg_case(out: &mut Out, digits: &str, sfx: &str) {
 }
 
 // ------------------------------------------------------------------ PAT
-fn pat_case(out: &mut Out, digits: &str, sfx: &str, scrut: &str) {
+/// scrutinee shapes.  `param`, `letparam`, `neg`: the scrutinee's type is KNOWN when the pattern is checked.
+/// `arith`, `let`, `closure`, `generic`, `ifexpr`: it is still a type variable then and is INFERRED only when the
+/// function's constraints are solved (operator result, un-annotated let of one, closure parameter, generic call
+/// result, if-expression result).
+pub const PAT_SHAPES_KNOWN: [&str; 3] = ["param", "letparam", "neg"];
+pub const PAT_SHAPES_INFERRED: [&str; 5] = ["arith", "let", "closure", "generic", "ifexpr"];
+
+fn pat_case(out: &mut Out, digits: &str, sfx: &str, scrut: &str, shape: &str) {
+    let arms = format!("{{\n        {}{} => \"hit\",\n        _ => \"miss\",\n    }}", digits, sfx);
+    let (pre, body) = match shape {
+        "param" => (String::new(), format!("match a {}", arms)),
+        "letparam" => (String::new(), format!("let s = a;\n    match s {}", arms)),
+        "neg" => (String::new(), format!("match -a {}", arms)),
+        "arith" => (String::new(), format!("match a + b {}", arms)),
+        "let" => (String::new(), format!("let s = a - b;\n    match s {}", arms)),
+        "closure" => (String::new(), format!("let g = |x| match x {};\n    g(a)", arms)),
+        "generic" => ("fn id[T](x: T) -> T {\n    x\n}\n".to_string(), format!("match id(a) {}", arms)),
+        _ => (String::new(), format!("match (if c {{ a }} else {{ b }}) {}", arms)),
+    };
+    let sx = INT_TYS.iter().find(|r| r.0 == scrut).map(|r| r.1).unwrap_or("i32");
     let src = format!(
-        "fn f(x: {t}) -> int32 {{\n    match x {{\n        {d}{s} => 1,\n        _ => 0,\n    }}\n}}\nfn main() -> unit {{\n    let _ = string_println(int32_to_string(f(0{sx})));\n    ()\n}}\n",
+        "{pre}fn f(a: {t}, b: {t}, c: bool) -> string {{\n    {body}\n}}\nfn main() -> unit {{\n    let _ = string_println(f(1{sx}, 2{sx}, true));\n    ()\n}}\n",
+        pre = pre,
         t = scrut,
-        d = digits,
-        s = sfx,
-        sx = INT_TYS.iter().find(|r| r.0 == scrut).map(|r| r.1).unwrap_or("i32")
+        body = body,
+        sx = sx
     );
     let res = match out.compile(&src) {
         Outcome::Ok(c) => {
+            // the pattern key in Core: `f` contains no other numeric literal
+            let mut prims = Vec::new();
+            for func in c.core.toplevels.iter().filter(|func| func.name == "f") {
+                if let Ok(v) = serde_json::to_value(func) {
+                    core_prims(&v, &mut prims);
+                }
+            }
+            let core = prims.iter().map(|(pv, val, ty)| format!("{}:{}:{}", pv, val, ty)).collect::<Vec<_>>().join(",");
+            let runtime: Vec<String> = compiler::go::runtime::make_runtime()
+                .into_iter()
+                .filter_map(|it| if let Item::Fn(f) = it { Some(f.name) } else { None })
+                .collect();
             let mut cases: Vec<String> = Vec::new();
-            if let Some(f) = go_fn(&c.go, "f") {
-                walk_block(
-                    &f.body,
-                    &mut |s| {
-                        if let Stmt::SwitchExpr { expr, cases: cs, .. } = s {
-                            for (e, _) in cs {
-                                cases.push(format!("{}/{}", operand(expr), operand(e)));
+            for it in &c.go.toplevels {
+                if let Item::Fn(f) = it {
+                    if runtime.contains(&f.name) {
+                        continue;
+                    }
+                    walk_block(
+                        &f.body,
+                        &mut |s| {
+                            if let Stmt::SwitchExpr { expr, cases: cs, .. } = s {
+                                for (e, _) in cs {
+                                    cases.push(format!("{}/{}", operand(expr), operand(e)));
+                                }
                             }
-                        }
-                    },
-                    &mut |_| {},
-                );
+                        },
+                        &mut |_| {},
+                    );
+                }
             }
             let text = c.go.to_pretty(&c.goenv, 120);
-            let txt = text.lines().find_map(|ln| ln.trim().strip_prefix("case ").map(|r| r.trim_end_matches(':').to_string())).unwrap_or_else(|| "?".into());
-            format!("accept cases={} txt={}", cases.join(","), txt)
+            let txt: Vec<String> = text.lines().filter_map(|ln| ln.trim().strip_prefix("case ").map(|r| r.trim_end_matches(':').to_string())).filter(|t| !t.starts_with('"')).collect();
+            format!("accept core={} cases={} txt={}", core, cases.join(","), txt.join(","))
         }
         Outcome::Err(stage, msgs) => classify(stage, &msgs),
         Outcome::Panic(m) => format!("panic {}", m.replace(['\n', '\t'], " ")),
     };
-    out.case("PAT", l(vec![a("pat"), a(digits), a(if sfx.is_empty() { "-" } else { sfx }), a(scrut)]), &res, &src);
+    out.case("PAT", l(vec![a("pat"), a(digits), a(if sfx.is_empty() { "-" } else { sfx }), a(scrut), a(shape)]), &res, &src);
 }
 
 // ------------------------------------------------------------------ OP
@@ -771,16 +807,35 @@ pub fn main(args: &Args) {
         neg_case(&mut out, &v.to_string(), "i8");
     }
 
-    // ---- PAT: literal patterns at every scrutinee type (suffixed matching, suffixed foreign, unsuffixed)
+    // ---- PAT: literal patterns at every scrutinee type (suffixed matching, suffixed foreign, unsuffixed), on scrutinees of
+    // known type and on scrutinees whose type is only inferred after the pattern was checked
     for (name, sfx, signed, bits) in INT_TYS {
         let max: u128 = if signed { (1u128 << (bits - 1)) - 1 } else { (1u128 << bits) - 1 };
-        for v in [0u128, 7, max, max + 1] {
-            pat_case(&mut out, &v.to_string(), sfx, name);
-            pat_case(&mut out, &v.to_string(), "", name);
+        for shape in PAT_SHAPES_KNOWN {
+            for v in [0u128, 7, max, max + 1] {
+                pat_case(&mut out, &v.to_string(), sfx, name, shape);
+                pat_case(&mut out, &v.to_string(), "", name, shape);
+            }
+            pat_case(&mut out, "010", sfx, name, shape);
         }
-        pat_case(&mut out, "010", sfx, name);
+        // in range / at the boundary / just outside / far outside the scrutinee type but inside int32 / around int32's end
+        let mut vals: Vec<u128> = vec![0, 7, max - 1, max, max + 1, max + 2, 1u128 << bits, 300, 1000, 40000, 70000, 2147483647, 2147483648, 4294967296];
+        for _ in 0..(if thorough { 12 } else { 2 }) {
+            vals.push((rng.next() >> (33 + rng.below(24))) as u128); // random value inside int32
+        }
+        vals.sort();
+        vals.dedup();
+        for shape in PAT_SHAPES_INFERRED {
+            for v in &vals {
+                pat_case(&mut out, &v.to_string(), "", name, shape);
+            }
+            for v in [7u128, max, max + 1] {
+                pat_case(&mut out, &v.to_string(), sfx, name, shape);
+            }
+            pat_case(&mut out, "7", if sfx == "i16" { "i8" } else { "i16" }, name, shape);
+        }
     }
-    pat_case(&mut out, "5", "i8", "int16");
+    pat_case(&mut out, "5", "i8", "int16", "param");
 
     // ---- OP: operator × type × operand shape
     let arith = ["Add", "Sub", "Mul", "Div", "Less", "Greater", "LessEq", "GreaterEq", "Eq", "NotEq"];
